@@ -195,6 +195,12 @@ class Driver:
 # ---------------------------------------------------------------------------------------------
 # run context
 
+# per-property multipliers of every loop size (loops nest, so the effect on the running time is a power of these);
+# tuned so that a quick check takes 10-35 s and a thorough one some minutes
+QUICK_FACTOR = {"C05": 1.5, "C07": 1.8, "C08": 3.0, "C09": 1.7, "C14": 1.4, "C15": 1.4, "C16": 2.2, "C19": 3.0, "C20": 2.5}
+THOROUGH_FACTOR = {"C03": 1.5, "C04": 1.5, "C06": 2.0, "C07": 1.5, "C08": 2.0, "C15": 2.0, "C16": 2.5, "C19": 4.0, "C20": 3.0}
+
+
 class Ctx:
     def __init__(self, prop, tier, seed):
         self.prop = prop
@@ -233,8 +239,8 @@ class Ctx:
         """loop sizes: the numbers given by the property modules are scaled so that a quick run takes
         some tens of seconds and a thorough run some minutes (both are additionally capped by time_left)"""
         if self.tier == "thorough":
-            return max(1, int(thorough * 2))
-        return max(1, int(quick * 2.2))
+            return max(1, int(thorough * 2 * THOROUGH_FACTOR.get(self.prop, 1.0)))
+        return max(1, int(quick * 2.2 * QUICK_FACTOR.get(self.prop, 1.0)))
 
     def time_left(self, limit_quick=100, limit_thorough=1200):
         lim = limit_thorough if self.tier == "thorough" else limit_quick
